@@ -18,6 +18,8 @@ TFields == [s |-> A("string", FALSE), n |-> A("int", TRUE), b |-> A("bytes", FAL
 \* types with no relationship / no attribute at all (their other map is empty)
 TAttrsOnly == [s |-> A("string", FALSE)]
 TRelsOnly  == [m |-> R(FALSE, "tt")]
+\* two attributes whose names differ by their case only
+TCase == [s |-> A("string", FALSE), S |-> A("string", FALSE)]
 NoDef == A("", FALSE)
 Op(o, h, impl, f, v, id, def, unt) ==
     [op |-> o, h |-> h, impl |-> impl, tname |-> "rt", fields |-> IF o = "New" THEN TFields ELSE <<>>,
@@ -28,11 +30,12 @@ H == 1..MaxObjs
 Alphabet ==
        { Op("New", 0, i, "", V(0), "", NoDef, FALSE) : i \in {"soft", "wrap"} }
   \cup { NewOf(i, "rta", TAttrsOnly) : i \in {"soft", "wrap"} } \cup { NewOf(i, "rtr", TRelsOnly) : i \in {"soft", "wrap"} }
+  \cup { NewOf(i, "rtc", TCase) : i \in {"soft", "wrap"} }
   \cup { Op("Set", h, "", p[1], p[2], "", NoDef, FALSE) : h \in H,
             p \in { <<"s", V(1)>>, <<"s", V(2)>>, <<"n", V(0)>>, <<"n", V(1)>>, <<"n", V(2)>>, <<"n", NilV>>, <<"b", V(1)>>, <<"b", V(2)>>,
                     <<"q", V(1)>>, <<"q", NilV>>, <<"o", Ids(<<"a">>)>>, <<"o", Ids(<<>>)>>,
                     <<"m", Ids(<<"b", "a">>)>>, <<"m", Ids(<<"c", "b", "a">>)>>, <<"m", Ids(<<>>)>>,
-                    <<"m", Ids(<<"a", "b", "a">>)>> } }
+                    <<"m", Ids(<<"a", "b", "a">>)>>, <<"S", V(1)>>, <<"S", V(2)>> } }
   \cup { Op("Set", h, "", f, NilV, "", NoDef, TRUE) : h \in H, f \in {"n", "q"} }   \* untyped nil
   \cup { Op("Set", h, "", "b", V(0), "", NoDef, TRUE) : h \in H }                  \* empty bytes given as a nil slice
   \cup { Op("SetID", h, "", "", V(0), id, NoDef, FALSE) : h \in H, id \in {"i1", "i2", ""} }
